@@ -93,7 +93,7 @@ func finalOf(env *SymEnv, atom string) Aff {
 			if n, ok := env.names[o]; ok && n == atom {
 				return v
 			}
-			if _, named := env.names[o]; !named && "L:"+o.Name() == atom {
+			if _, named := env.names[o]; !named && "L:"+varRoleName(o) == atom {
 				return v
 			}
 		}
@@ -562,7 +562,7 @@ func checkFillLoop(c *Ctx, p *GoProg, fd *ast.FuncDecl, name string, loop *ast.F
 			if strings.HasPrefix(at, "ind:") {
 				var in *ind
 				for k := range inds {
-					if "ind:"+inds[k].obj.Name() == at {
+					if "ind:"+varRoleName(inds[k].obj) == at {
 						in = &inds[k]
 					}
 				}
